@@ -123,14 +123,14 @@ class PriorityPolicy:
     fast = True
 
     def __init__(self, order, change_points=()):
+        self.order0 = list(order)  # as given: describe() must not reflect priorities lowered during the run
         self.prio = {t: len(order) - i for i, t in enumerate(order)}
         self.change = set(tuple(c) for c in change_points)
         self.hit = set()
         self.low = 0
 
     def describe(self):
-        return {"policy": "priority", "order": sorted(self.prio, key=lambda t: -self.prio[t]),
-                "change_points": sorted(self.change)}
+        return {"policy": "priority", "order": list(self.order0), "change_points": sorted(self.change)}
 
     def at_point(self, s, me):
         key = (me, s.nsteps[me])
